@@ -137,6 +137,13 @@ class Discharger:
         goal = sym.is_variant(t, ok_variant)
         if goal == T or entails(e.pc, goal)[0]:
             return 'D1', 'guarded by ' + show(goal)[:60]
+        # a presence test made inside a loop that itself mutates the container (versioned by the walker) is the current fact of
+        # this iteration; it supersedes what was known before the loop
+        if t[0] == 'get':
+            for a in atoms(e.pc):
+                if a[0] == 'is' and a[2] == ok_variant and a[1][0] == 'get' and a[1][1][0] == 'ver' and a[1][1][1] == t[1] and a[1][2] == t[2] \
+                        and entails(e.pc, Or(goal, Atom(a)))[0]:
+                    return 'D1', 'presence known from before the loop or re-tested in this iteration'
         # iterator next(): k-th element of a source whose length is bounded below
         if t[0] == 'next':
             src, kind = iter_source(t[1])
@@ -308,6 +315,13 @@ class Discharger:
                 if x.seq < e.seq and x.kind == 'call' and x.data['name'] == 'insert' and x.data['args'][:2] == [m, k]:
                     if equivalent(x.pc, And(e.pc, Not(has(m, k))))[0]:
                         return 'D1', 'inserted just before when absent'
+                    # ... or: present before the loop, or inserted in this iteration, or re-tested present in this iteration
+                    vers = [Atom(a) for a in set(atoms(e.pc)) | set(atoms(x.pc)) if a[0] == 'is' and a[2] == 'Some' and a[1][0] == 'get' and a[1][1][0] == 'ver'
+                            and a[1][1][1] == m and a[1][2] == k]
+                    same_walk = tuple(e.loops[:len(x.loops)]) == tuple(x.loops) or \
+                        (x.loops and e.loops and x.loops[0][2] is not None and x.loops[0][2] == e.loops[0][2])   # a later loop over the same list
+                    if vers and same_walk and entails(e.pc, Or(has(m, k), x.pc, *vers))[0]:
+                        return 'D1', 'present before, inserted in this iteration, or re-tested present'
         return None, ''
 
 
